@@ -91,7 +91,13 @@ func ZZ_C19_H1() {
 	var wire []byte
 	var uris []string
 	for i := 0; i < k; i++ {
-		t := zz.Choose("tmpl", len(zzTemplates))
+		t := zz.Choose("tmpl", len(zzTemplates)+2)
+		if t >= len(zzTemplates) {
+			// malformed header block: refused with a 4xx before any handler
+			wire = append(wire, []string{"GET /m HTTP/1.1\r\nBad Header\r\n\r\n", "GET /n HTTP/1.1\r\nHost: h\r\nContent-Length: x\r\n\r\n"}[t-len(zzTemplates)]...)
+			uris = append(uris, "/malformed")
+			break
+		}
 		wire = append(wire, zzTemplates[t].wire...)
 		uris = append(uris, zzTemplates[t].uri)
 		if zzTemplates[t].closes {
@@ -157,6 +163,10 @@ func ZZ_C19_H1() {
 	s.HijackConnHandle = func(c network.Conn, h app.HijackHandler) { h(c) }
 	s.StreamRequestBody = zz.Choose("stream", 2) == 1
 	s.DisableKeepalive = zz.Choose("nokeepalive", 2) == 1
+	// (crossed with handler outcomes, not with injected I/O faults: keeps the quick tier small)
+	if fault == 0 && zz.Choose("tinyBodyLimit", 2) == 1 {
+		s.MaxRequestBodySize = 1 // bodies of the POST templates are refused as too large
+	}
 	if zz.Choose("idle", 2) == 1 {
 		s.IdleTimeout = 1
 	}
